@@ -258,8 +258,11 @@ func selectEffectsIn(r *core.Run, fn *ssa.Function, sel effSel, chain []ssa.Call
 			case *ssa.Store:
 				if len(storeGlobs) > 0 {
 					at := res.Of(x.Addr).String()
+					// a selector of the form "type:pkg/types.T.Field" picks the stores by the field's type path,
+					// whatever the record variable is called or wherever it was built
+					tp := "type:" + fieldPath(x.Addr)
 					for _, g := range storeGlobs {
-						if g.MatchString(at) && (sel.StoreVal == "" || res.Of(x.Val).String() == sel.StoreVal) {
+						if (g.MatchString(at) || g.MatchString(tp)) && (sel.StoreVal == "" || res.Of(x.Val).String() == sel.StoreVal) {
 							slot := "store " + normT(at)
 							if sel.StoreVal != "" {
 								slot += " := " + sel.StoreVal
